@@ -30,6 +30,20 @@ def key_programs(rng, bw, n):
                 a.push(rng.choice(bw)).push(k).op("SSTORE")
             elif r < 0.8:
                 a.push(k).op("SLOAD").push(1).op("ADD").push(k).op("SSTORE")
+            elif r < 0.86:
+                # a read whose value disappears: consumed by an operand the VM drops, or culled by the size limit
+                a.push(k).op("SLOAD")
+                v = rng.random()
+                if v < 0.3:
+                    a.push(0).op(rng.choice(["RETURN", "REVERT"]))
+                elif v < 0.5:
+                    a.push(0).op("LOG0")
+                elif v < 0.75:
+                    for _ in range(rng.choice([7, 8, 9])):
+                        a.raw([0x80]).op(rng.choice(["ADD", "MUL"]))
+                    a.push(0).op("MSTORE")
+                else:
+                    a.push(rng.choice(bw)).op(rng.choice(["EQ", "LT", "AND"])).op("ISZERO").op("POP")
             else:
                 a.raw(gen.random_program(rng, bw, n_ops=6, hostile=0, loops=False))
                 # keep the stack harmless for what follows
@@ -73,16 +87,23 @@ def check(ctx):
         for v, a in zip(vmo, ano):
             consts = set(int(x) for x in re.findall(r"T_KnownData \[(\d+)\]", v))
             pre = ";".join("(%d,%d)" % (c, table[c]) for c in sorted(consts) if c in table)
-            terms.append(L.hexify("mk_c056case (%s) (%s) [%s] []" % (v, a, pre)))
-        bad = vlib.run_cases(ctx, "coverage", L.HEADER, terms, per_shard=max(1, len(terms) // 32 + 1), fn="c06_code")
+            terms.append("(%s, %s)" % (vlib.coq_bytes(keys[len(terms)]), L.hexify("mk_c056case (%s) (%s) [%s] []" % (v, a, pre))))
+        mcfg = gen.coq_config(L.DEFAULT_CFG)
+        bad = vlib.run_cases(ctx, "coverage", L.HEADER, terms, per_shard=min(60, max(1, len(terms) // 32 + 1)),
+                             fn="(fun t => c06m_code (fst t) (%s) (snd t))" % mcfg)
+        nkeys = vlib.run_cases(ctx, "model-keys", L.HEADER, terms, per_shard=min(60, max(1, len(terms) // 32 + 1)),
+                               fn="(fun t => c06m_keys (fst t) (%s) (snd t))" % mcfg)
         for idx, code in bad:
             c = keys[idx]
             ctx.violate("C06:%d:%s" % (code, c.hex()[:48]),
-                        "%s: program %s" % ({72: "a literal storage key of an explored path has no layout entry", 78: "panic"}.get(code, code), c.hex()[:160]),
+                        "%s: program %s" % ({72: "a literal storage key of an explored path has no layout entry",
+                                       73: "a literal storage key of a path the MODEL explores has no layout entry (the implementation's own states do not show the access)",
+                                       78: "panic"}.get(code, code), c.hex()[:160]),
                         {"code": c.hex(), "layout": ano[idx][:600],
                          "how": "echo '<code> 30000000 10 50 250 394 0 100 -1 all' | build/harness-target/debug/slxh analyze  (and ... vm)"})
         ok_layouts = len([1 for a in ano if a.startswith("XA 0") and ",(AT" in a])
         ctx.coverage.update({"evaluations": len(keys), "distinct_nontrivial": ok_layouts,
+                             "literal_keys_in_model_runs": sum(v for _, v in nkeys),
                              "input_classes": dict(collections.Counter(progs.values())),
                              "analysis_classes": dict(collections.Counter(str(L.xa_class(a)) for a in ano))})
     import p_tc_stages as TS
